@@ -7,6 +7,10 @@ NO_APPLIED = "No migration applied yet"
 LATEST = "Already at latest version"
 T_BASELINE, T_EXECUTE, T_RESOLVED = 1, 2, 4
 
+CK_HEADERS = [["-- atlas:checkpoint"],
+              ["-- hand-written checkpoint, replaces the files before it", "-- atlas:checkpoint"],
+              ["-- atlas:nolint", "-- atlas:checkpoint"]]
+
 CREATE_J = "CREATE TABLE IF NOT EXISTS j (n INTEGER PRIMARY KEY, id TEXT);"
 
 
@@ -103,7 +107,11 @@ class World:
 
     def render(self, v):
         f = self.files[v]
-        lines = ["-- atlas:checkpoint", ""] if f["ck"] else []
+        lines = []
+        if f["ck"]:
+            # the checkpoint directive is a FILE directive: anywhere in the header block that is detached from the first
+            # statement by an empty line, not necessarily its first line (hand-written files carry notes / other directives)
+            lines = CK_HEADERS[int(v) % len(CK_HEADERS)] + [""]
         for s in f["stmts"]:
             if s["tag"] is None:
                 lines.append(CREATE_J)
@@ -237,13 +245,26 @@ class World:
                         bad.append(("set|target-not-resolved", "revision %s was partial/failed and is neither resolved nor complete after `migrate set %s`: %r" % (ver, v, o)))
                 elif not same or o["type"] != r["type"]:
                     bad.append(("set|older-revision-modified", "revision %s modified by `migrate set %s`: %r -> %r" % (ver, v, r, o)))
-        for ver, o in obs.items():
-            if ver in self.revs:
-                continue
+        # Which files does set record?  "set-version agrees with that decision": set moves the history to v as a run
+        # of the decision procedure would -- it records exactly the files the (linear) decision calls pending up to v,
+        # i.e. the files newer than the last remaining revision.  Files below the last revision that have no revision
+        # (added out of order, or preceding the checkpoint/baseline the history started from) are not pending: what
+        # happens to them is decided by --exec-order at apply time, set must neither run nor silently record them.
+        kept = sorted(ver for ver in self.revs if ver <= v)
+        added = sorted(ver for ver in obs if ver not in self.revs)
+        for ver in added:
+            o = obs[ver]
             if ver > v or ver not in self.files:
                 bad.append(("set|unexpected-revision-added", "`migrate set %s` added revision %s (not a file <= target)" % (v, ver)))
+            elif kept and ver < kept[-1]:
+                bad.append(("set|recorded-file-below-last-revision", "`migrate set %s` recorded %s as applied although it is older than the last revision %s and was never applied: "
+                            "a file that is not pending (out of order, or before the starting checkpoint/baseline) is silently declared applied (revisions before: %r)" % (v, ver, kept[-1], kept)))
             elif o["type"] != T_RESOLVED or o["applied"] != o["total"]:
                 bad.append(("set|added-revision-shape", "`migrate set %s` added %r, want a complete 'manually set' revision" % (v, o)))
+        if kept:
+            for ver in sorted(self.files):
+                if not self.files[ver]["ck"] and kept[-1] < ver <= v and ver not in obs:
+                    bad.append(("set|pending-file-not-recorded", "`migrate set %s` left the pending file %s (newer than the last revision %s, <= target) without a revision" % (v, ver, kept[-1])))
         if v not in obs:
             bad.append(("set|target-missing", "no revision for the target version %s after `migrate set %s`" % (v, v)))
         # adopt what was observed (the decision model below is evaluated on the recorded history)
@@ -322,6 +343,12 @@ def gen_op(rnd, w):
         weights[1] = ("apply", 12)
     if res["ooo"]:  # out-of-order files are waiting: exercise the three execution orders
         weights[1] = ("apply", 60)
+    # moving the version forward while an older file has no revision (out of order / before the starting checkpoint or
+    # baseline): set must record the pending files only
+    last = max(w.revs) if w.revs else None
+    fwd = [f for f in sorted(w.files) if last and f > last] if last and any(f < last and f not in w.revs for f in w.files) else []
+    if fwd:
+        weights = [(k, 16 if k == "set" else x) for k, x in weights]
     tot = sum(x for _, x in weights)
     r = rnd.uniform(0, tot)
     kind = weights[-1][0]
@@ -359,6 +386,8 @@ def gen_op(rnd, w):
         if part and rnd.random() < 0.3:
             return {"op": "set", "ver": part[0]}
         v = rnd.choice(sorted(w.files))
+        if fwd and rnd.random() < 0.7:
+            v = rnd.choice(fwd)
         for _ in range(6):
             # steer away (mostly) from targets that would leave the claimed domain: a checkpoint version recorded
             # as a later revision, or a partial revision that is no longer the last one
